@@ -121,7 +121,7 @@ def check(formulas, timeout_ms=None, want_model=False, fallback=True,
             fh.write(_to_smt2(formulas))
     if not fallback:
         return 'unknown', None, 'z3:' + s.reason_unknown()
-    v = cvc5_check(formulas, min(timeout_ms, 5000))
+    v = cvc5_check(formulas, min(timeout_ms, 20000))
     if v == 'unsat':
         return 'unsat', None, 'cvc5'
     if v == 'sat':
